@@ -1,5 +1,6 @@
 import XvcPipeline.Progress
 import XvcPipeline.Demo
+import XvcPipeline.Gen.ExitStatus
 /-!
 # Property theorems C10 / C13 / C11 of the scheduler model
 
@@ -136,6 +137,37 @@ theorem C10_broken_forever {c : Cfg} {σ σ' : Sys} (st : Next c σ σ') (d : Na
     σ'.loc d = .Broken := by
   rw [C10_terminal_absorbing st d (by rw [hb]; rfl)]; exact hb
 
+/-! ### which finished commands count as successful
+
+The model abstracts the exit status of a step command to `ok : Bool` (`Next.procExit`, `Proc.exited ok`): `exitOk` needs
+`exited true`, `exitFail` needs `exited false`.  `Gen.exitEvent` is regenerated from the arms of `match poll_result` in
+`s_running_f_wait_process`; the theorems pin the abstraction `ok = (status = Exited 0)`. -/
+
+/-- the ONLY exit status the code maps to the done event is `Exited(0)`: a command that exited with another code, was
+    terminated by a signal (`Signaled`), or ended in any other way (`Other`, `Undetermined`) does not finish successfully -/
+theorem C10_only_exit_zero_is_done (st : ExitStatus) :
+    exitEvent st = .ProcessCompletedSuccessfully ↔ st = .Exited 0 := by
+  cases st with
+  | Exited n => cases n <;> simp [exitEvent]
+  | Signaled n => simp [exitEvent]
+  | Other n => simp [exitEvent]
+  | Undetermined => simp [exitEvent]
+
+/-- every other exit status yields an event of the generated machine that leads from `Running` to `Broken`, and
+    `Exited(0)` leads to `DoneByRunning`: the Bool abstraction of the model is exactly the code's classification -/
+theorem C10_exit_status_abstraction (st : ExitStatus) :
+    trans .Running (exitEvent st) = some (if st = .Exited 0 then .DoneByRunning else .Broken) ∧
+    (exitEvent st = .ProcessCompletedSuccessfully ∨ exitEvent st = .ProcessReturnedNonZero) := by
+  cases st with
+  | Exited n => cases n <;> simp [exitEvent, Gen.trans]
+  | Signaled n => simp [exitEvent, Gen.trans]
+  | Other n => simp [exitEvent, Gen.trans]
+  | Undetermined => simp [exitEvent, Gen.trans]
+
+/-- non-vacuity: a command killed by SIGSEGV, by SIGKILL, and one that exits with 139 are all failures -/
+example : exitEvent (.Signaled 11) = .ProcessReturnedNonZero ∧ exitEvent (.Signaled 9) = .ProcessReturnedNonZero ∧
+    exitEvent (.Exited 139) = .ProcessReturnedNonZero ∧ exitEvent (.Exited 0) = .ProcessCompletedSuccessfully := by decide
+
 /-- the cycle test of the model is exact: Kahn succeeds iff the steps can be ranked so that every dependency has a
     smaller rank than its dependent, i.e. iff the graph has no cycle -/
 theorem C10_acyclic_iff_toposort {n : Nat} {deps : Nat → List Nat} (hwf : WF n deps) :
@@ -197,6 +229,8 @@ example : ¬ Ranked 2 (fun i => if i = 0 then [1] else [0]) := by
 #print axioms C10_pub_monotone
 #print axioms C10_failed_upstream_blocks
 #print axioms C10_broken_forever
+#print axioms C10_only_exit_zero_is_done
+#print axioms C10_exit_status_abstraction
 #print axioms C10_acyclic_iff_toposort
 #print axioms C10_cycle_rejected
 #print axioms C10_acyclic_starts
